@@ -26,6 +26,8 @@ def check(tier: str) -> Result:
     tree = get_tree()
     res = Result(explanation=EXPLANATION)
     n = axis_rules.add_obligations(res, tree, "C07.R1", scope="all")
+    from . import wiring
+    n_w = wiring.add_obligations(res, tree, "C07.R2", lambda ci: ci.module.name.startswith("jumanji.environments.") and not ci.module.name.endswith((".reward", ".done", ".types")))
     per = {k.split(":")[1]: v for k, v in res.extra.get("axis_sites_per_environment", {}).items()}
     low = {e: (per.get(e, 0), m) for e, m in MIN_PER_ENV.items() if per.get(e, 0) < m}
     if (n < MIN_TOTAL or low) and not any(o.ok is False for o in res.obligations):
